@@ -47,7 +47,9 @@ def run_script(task, script, expect=None, changed=-1, stats=None, seen=None):
         if "C03" in which:
             check_tree_index(P, "after construction")
         trail = []
+        prev_d = None
         for step in range(task["N"]):
+            pos0 = src.pos
             lv = _leaf_menu(leaves(P))
             # deepen() is offered while the deepest layer is small (bounds the tree size)
             can_deepen = len(P.get_node_list()[P.get_depth()]) <= DEEPEN_MAX
@@ -72,7 +74,11 @@ def run_script(task, script, expect=None, changed=-1, stats=None, seen=None):
                 if stats is not None:
                     d = hash((task["_h"], partition_digest(P)))
                     stats.states.add(d)
-                    stats.transitions.add(hash((task["_h"], tuple(p[2] for p in src.points))))
+                    # edge = (source state, answers of this operation, target state); the source state of the first
+                    # judged step of an execution is identified by the script prefix that reaches it
+                    srcs = prev_d if prev_d is not None else hash((task["_h"], "prefix", tuple(p[2] for p in src.points[:pos0])))
+                    stats.transitions.add(hash((srcs, tuple(p[2] for p in src.points[pos0:]), d)))
+                    prev_d = d
                     stats.judged_rounds += 1
                     stats.bump("expansions", len(rec.calls) - mark)
                     if a == 0:
